@@ -13,6 +13,8 @@ Case grammar sent to `drv_clientread`:
     TAIL <hex|-> <idle|fin|rst>                         incomplete last frame, and what the peer does then
     SUB  <sub_all 0|1> <type> ...                       initial subscription state
     CALL read <none|zero|pos|neg> <ack 0|1> <sync 0|1> | CALL sub <sub_all> <type> ...
+    CALL defs <type> <size> <hash> ...                  the local definitions of the occurring types from now on (a type
+                                                        registered again with another layout / added / removed)
     OBS  <consumed> <connected 0|1> <msg hdr payload|none|unknownType hdr raw|invalidDef|lost|notConnected|blocked|crash:X>
     END
 
@@ -168,7 +170,7 @@ def env():
     import pyrtma.core_defs as cd
     from pyrtma.message_data import MessageData
     from pyrtma.message_base import MessageMeta
-    from pyrtma.validators import ByteArray
+    from pyrtma.validators import ByteArray, Uint8
     from pyrtma import exceptions as EX
 
     PC.select = FakeSelect
@@ -184,16 +186,39 @@ def env():
 
     PC.time = Clock
     _ENV["queue"] = queue
-    for tid, (size, h) in TEST_DEFS.items():
+    def make_def(tid: int, size: int, h: int):
         ns: Dict[str, Any] = {"type_id": tid, "type_name": f"T{tid}", "type_hash": h, "type_size": size,
                               "type_source": "", "type_def": "", "__annotations__": {}}
-        if size:
+        if size == 1:
+            ns["b"] = Uint8()
+            ns["__annotations__"]["b"] = Uint8
+        elif size:
             ns["b"] = ByteArray(size)
             ns["__annotations__"]["b"] = ByteArray
-        PM._msg_defs[tid] = MessageMeta(f"MDF_T{tid}", (MessageData,), ns)
+        return MessageMeta(f"MDF_T{tid}", (MessageData,), ns)
+
+    def set_def(tid: int, layout):
+        """register `tid` with (size, hash) through the public decorator; `None` removes the definition (through the
+        module's own table setter)"""
+        if layout is None:
+            PM._set_msg_defs({k: v for k, v in PM._msg_defs.items() if k != tid})
+        else:
+            PM.message_def(make_def(tid, layout[0], layout[1]))
+
+    for tid, (size, h) in TEST_DEFS.items():
+        set_def(tid, (size, h))
     logging.getLogger().setLevel(logging.CRITICAL + 10)
-    _ENV.update(PC=PC, PM=PM, cd=cd, EX=EX)
+    _ENV.update(PC=PC, PM=PM, cd=cd, EX=EX, set_def=set_def)
     return _ENV
+
+
+def def_lines(PM, types) -> List[str]:
+    out = []
+    for t in sorted(types):
+        cls = PM._msg_defs.get(t)
+        if cls is not None:
+            out.append(f"{t} {cls.type_size} {cls.type_hash}")
+    return out
 
 
 def header_bytes(timecode: bool, msg_type: int, nbytes: int, version: int, salt: int = 0) -> bytes:
@@ -255,10 +280,7 @@ def run_case(cid: str, case: Dict[str, Any]) -> List[str]:
         types.add(struct.unpack_from("<i", h, 0)[0])
     if len(case["tail"]) >= 4:
         types.add(struct.unpack_from("<i", case["tail"], 0)[0])
-    for t in sorted(types):
-        cls = PM._msg_defs.get(t)
-        if cls is not None:
-            lines.append(f"DEF {t} {cls.type_size} {cls.type_hash}")
+    lines += ["DEF " + d for d in def_lines(PM, types)]
     for h, p in frames:
         lines.append(f"FRAME {hexs(h)} {hexs(p)}")
     lines.append(f"TAIL {hexs(case['tail'])} {case['end']}")
@@ -266,7 +288,16 @@ def run_case(cid: str, case: Dict[str, Any]) -> List[str]:
     obs = []
     held = []
     stop = False
+    changed: Dict[int, Any] = {}
     for call in case["calls"]:
+        if call[0] == "defs":
+            # the local definition table changes between reads: [(type, (size, hash) | None)]
+            if not stop:
+                for tid, layout in call[1]:
+                    changed[tid] = TEST_DEFS.get(tid)
+                    E["set_def"](tid, tuple(layout) if layout is not None else None)
+                lines.append("CALL defs " + " ".join(def_lines(PM, types)))
+            continue
         if call[0] == "sub":
             _, a, ts = call
             lines.append("CALL sub %d %s" % (int(bool(a)), " ".join(map(str, ts))))
@@ -311,6 +342,8 @@ def run_case(cid: str, case: Dict[str, Any]) -> List[str]:
     lines += obs
     lines.append("END")
     c._connected = False       # keep __del__ from "disconnecting" (it sleeps 100 ms)
+    for tid, layout in changed.items():     # the next case starts from the test definitions again
+        E["set_def"](tid, layout)
     return lines
 
 
@@ -405,6 +438,34 @@ def sub_changes(tc: bool = False):
                        "timecode": tc, "tag": "sub:" + ",".join(seq)}
 
 
+# changes of the local definition table between reads: (type, new (size, hash) | None = removed)
+DEF_CHANGES: List[List[Tuple[int, Any]]] = [
+    [(5002, (6, TEST_DEFS[5002][1]))],              # registered again, larger: `sizePlus` frames become good, `goodS` wrong
+    [(5002, (4, 0x33333333))],                      # same size, another hash: with sync_check `goodS` is a wrong version
+    [(5004, (1, TEST_DEFS[5004][1]))],              # registered again, smaller: `sizeMinus` becomes good, `zeroVer` wrong
+    [(UNKNOWN_T, (5, 0x55))],                       # a definition for a type that had none
+    [(5003, None)],                                 # a definition removed: `goodU` becomes an unknown type
+    [(5002, (6, 0x44444444)), (5003, None), (UNKNOWN_T, (5, 0x56))],
+]
+
+
+def def_changes():
+    """one frame read under the test definitions, then the table changes, then two more frames (every kind that a change
+    can turn from good into undecodable or back) x sync_check; half of the cases subscribed to everything"""
+    kinds = ["goodS", "sizePlus", "sizeMinus", "zeroVer", "unknown", "goodU", "badVer"]
+    n = 0
+    for ch in DEF_CHANGES:
+        for k0 in kinds:
+            for k1, k2 in itertools.product(kinds, repeat=2):
+                for sync in (False, True):
+                    n += 1
+                    fr = [frame(k, False, i + 1) for i, k in enumerate((k0, k1, k2))]
+                    calls = [("read", "pos", False, sync), ("defs", ch), ("read", "pos", False, sync),
+                             ("read", "zero", False, sync), ("read", "pos", False, sync)]
+                    yield {"frames": fr, "tail": b"", "end": "idle", "sub": (True, [ALLT]) if n % 2 else (False, SUB0 + [5003]),
+                           "calls": calls, "tag": "defs:" + ",".join((k0, k1, k2))}
+
+
 def rand_case(rng, malformed: bool = False) -> Dict[str, Any]:
     tc = rng.random() < 0.3
     n = rng.randint(0, 8)
@@ -437,6 +498,8 @@ def rand_case(rng, malformed: bool = False) -> Dict[str, Any]:
         if rng.random() < 0.25:
             calls.append(("sub",) + rng.choice([(False, SUB0), (False, []), (True, [ALLT]), (False, [5003]),
                                                  (False, [5001, 5002, 5003, 5004, ACK])]))
+        if not malformed and rng.random() < 0.04:
+            calls.append(("defs", rng.choice(DEF_CHANGES)))
         calls.append(("read", rng.choice(["none", "zero", "pos", "neg", "zero", "pos"]), rng.random() < 0.3,
                       rng.random() < 0.5))
     data_len = sum(len(h) + len(p) for h, p in fr) + len(tail)
@@ -545,7 +608,8 @@ def from_json(c: Dict[str, Any]) -> Dict[str, Any]:
     d = dict(c)
     d["frames"] = [(bytes.fromhex(h), bytes.fromhex(p)) for h, p in c["frames"]]
     d["tail"] = bytes.fromhex(c["tail"])
-    d["calls"] = [tuple(x) for x in c["calls"]]
+    d["calls"] = [("defs", [(t, tuple(l) if l is not None else None) for t, l in x[1]]) if x[0] == "defs" else tuple(x)
+                  for x in c["calls"]]
     d["sub"] = (c["sub"][0], list(c["sub"][1]))
     return d
 
